@@ -41,7 +41,7 @@ def c10(prop, tier, res, replay=None):
 
 AUTH = dict(sub="auth", mode="auth", family="auth", shards=q(4, 16),
             args=lambda tier, sd, sh: ["-seed", sd * 1000 + sh, "-configs", 40 if tier == "quick" else 400, "-requests", 70 if tier == "quick" else 120],
-            key_fields=["k", "kind", "scenario", "now", "nonce"])
+            key_fields=["k", "kind", "scenario", "now", "nonce"], class_clauses={"replay-accepted-after-tolerance-raised-by-reload"})
 SIGNING = dict(sub="signing", mode="signing", family="signing", shards=q(2, 16),
                args=lambda tier, sd, sh: ["-seed", sd * 1000 + sh, "-n", 500 if tier == "quick" else 4000],
                key_fields=["k", "mode", "now", "escapedPath"], class_clauses={"redirect-hop-signature-stale"})
